@@ -768,6 +768,9 @@ impl Sim {
             return;
         }
         let Some(gid) = self.gid else { return };
+        // The image checks use short-lived traversal buffers: keep them apart from the queues
+        // the monitor follows.
+        self.qmon.borrow_mut().forget_all();
         let (old_committed, had_graph) = with_rep!(&self.reps[r], rep => (rep.committed.clone(), rep.has_graph));
         let mut candidates: Vec<BTreeSet<CmdId>> = Vec::new();
         if had_graph {
@@ -787,6 +790,7 @@ impl Sim {
             }
             let sig_of = |normal: &str| if snap.root_tear || fs.had_subsector_root_tear(r) { "root-slot-subsector-tear".to_string() } else { normal.to_string() };
             fs.install_image(scratch, &snap.files);
+            self.qmon.borrow_mut().forget_all();
             let verdict: Result<(), (String, String, String)> = (|| {
                 use aranya_runtime::{Storage as _, StorageProvider as _};
                 let mut p = dir_path(scratch).into_bytes();
@@ -842,6 +846,7 @@ impl Sim {
                 self.violation("C15", &class, &sig, format!("crash image taken at a sync point of replica {r}: {detail}"));
             }
         }
+        self.qmon.borrow_mut().forget_all();
     }
 
     /// After that call returned (successfully or not).
@@ -861,8 +866,28 @@ impl Sim {
         }
     }
 
-    /// A hard I/O error was injected during the last call: no property defines the replica's
-    /// in-memory state any more, so the process is restarted (narrow relaxation).
+    /// A call failed because of an injected disk error. The failure itself is allowed (narrow
+    /// relaxation); but a failed action or commit leaves the committed heads, graph and facts
+    /// unchanged (C07/C08), and lookups stay exact (C11): nothing the failed call wrote may be
+    /// visible through the live storage object. Checked before the replica is restarted.
+    pub fn after_failed_io(&mut self, r: usize, ctx: &str, before: &Option<(Vec<(CmdId, u64)>, u64)>, prop: &str) {
+        if self.dead || self.crashed[r] || !self.has_graph(r) {
+            return;
+        }
+        self.stats.bump("fault.disk_error_state_checked");
+        if before.is_some() {
+            let after = self.snapshot(r);
+            if after != *before {
+                self.violation(prop, &format!("{prop}.failed-io-changed-state"), "failed-io-changed-state", format!("{ctx}: the call failed with an injected disk error, but the committed heads/facts seen through the live storage changed: {before:?} -> {after:?}"));
+                return;
+            }
+        }
+        let shadow = self.committed(r).clone();
+        self.check_lookups(r, &format!("{ctx} (after injected disk error)"), &shadow);
+    }
+
+    /// A hard I/O error was injected during the last call: whatever else the replica's process
+    /// holds in memory is defined by no property, so the process is restarted (narrow relaxation).
     pub fn fs_after_call(&mut self, r: usize) {
         let hard = self.fs.as_ref().is_some_and(|fs| fs.take_hard_error(r));
         if hard && self.is_file(r) && !self.crashed[r] {
